@@ -1,10 +1,12 @@
 package main
 
 import (
-	"regexp"
 	"go/constant"
 	"go/token"
 	"go/types"
+	"os"
+	"path/filepath"
+	"regexp"
 	"regexp/syntax"
 	"sort"
 	"strconv"
@@ -177,6 +179,7 @@ func runC14(w *World, r *Report) {
 	c14UnmanageSet(w, r)
 	c14DelayedUnmanage(w, r)
 	c14NormalisationAgreement(w, r)
+	c14ProxyProtocolAgreement(w, r)
 	r.Min("R5", 3)
 	r.Min("R1", 2)
 	r.Min("R2", 3)
@@ -400,8 +403,12 @@ func c14Coverage(w *World, r *Report) {
 		// manage-all is withdrawn only when the previous configuration had it and the new one does not
 		for _, c := range CallsIn(f, false, "config.unmanageGlobalVoided", "config.scheduleUnmanageHAProxyGlobal") {
 			cs := expandConds(CondsOf(c.Block()))
-			prev := condsHave(cs, true, func(v ssa.Value) bool { return strings.HasSuffix(Path(v), "ManageAll") && strings.Contains(strings.ToLower(Path(v)), "previous") })
-			notNew := condsHave(cs, false, func(v ssa.Value) bool { return strings.HasSuffix(Path(v), "ManageAll") && strings.Contains(strings.ToLower(Path(v)), "new") })
+			prev := condsHave(cs, true, func(v ssa.Value) bool {
+				return strings.HasSuffix(Path(v), "ManageAll") && strings.Contains(strings.ToLower(Path(v)), "previous")
+			})
+			notNew := condsHave(cs, false, func(v ssa.Value) bool {
+				return strings.HasSuffix(Path(v), "ManageAll") && strings.Contains(strings.ToLower(Path(v)), "new")
+			})
 			// the condition may be a named boolean: previous && !new
 			if !prev || !notNew {
 				for _, cd := range cs {
@@ -411,10 +418,14 @@ func c14Coverage(w *World, r *Report) {
 					if ph, isPhi := cd.V.(*ssa.Phi); isPhi {
 						ok2 := false
 						for i, e := range ph.Edges {
-							if u, isU := e.(*ssa.UnOp); isU && u.Op == token.NOT && strings.HasSuffix(Path(u.X), "ManageAll") && Derives(u.X, func(x ssa.Value) bool { return isCallTo0(x, "config.BuildHAProxyEndpointsRequest") && strings.Contains(Path(x), "newPoliciesData") }) {
+							if u, isU := e.(*ssa.UnOp); isU && u.Op == token.NOT && strings.HasSuffix(Path(u.X), "ManageAll") && Derives(u.X, func(x ssa.Value) bool {
+								return isCallTo0(x, "config.BuildHAProxyEndpointsRequest") && strings.Contains(Path(x), "newPoliciesData")
+							}) {
 								ec := CondsOfEdge(ph.Block().Preds[i], ph.Block())
 								if condsHave(ec, true, func(v ssa.Value) bool {
-									return strings.HasSuffix(Path(v), "ManageAll") && Derives(v, func(x ssa.Value) bool { return isCallTo0(x, "config.BuildHAProxyEndpointsRequest") && !strings.Contains(Path(x), "newPoliciesData") })
+									return strings.HasSuffix(Path(v), "ManageAll") && Derives(v, func(x ssa.Value) bool {
+										return isCallTo0(x, "config.BuildHAProxyEndpointsRequest") && !strings.Contains(Path(x), "newPoliciesData")
+									})
 								}) {
 									ok2 = true
 								}
@@ -895,4 +906,131 @@ func regexpAccepts(pat, s string) bool {
 		return false
 	}
 	return re.MatchString(s)
+}
+
+// c14ProxyProtocolAgreement: each management request the engine sends reaches
+// the proxy backend with the intended effect. The engine side (HTTP method
+// constant and URL constant of every call of applyAllRequest) is read from the
+// SSA, the proxy side (acl / use_backend / backend directives) from haproxy.cfg
+// of the same tree; the effects are compared with the reviewed intent:
+// dropping the global flag must not touch the endpoints map.
+func c14ProxyProtocolAgreement(w *World, r *Report) {
+	cfgPath := filepath.Join(w.Repo, "proxy/rootfs/etc/haproxy/haproxy.cfg")
+	raw, err := os.ReadFile(cfgPath)
+	if err != nil {
+		r.Undec("R5", "proxy-protocol/haproxy.cfg", token.NoPos, "cannot read %s: %v", cfgPath, err)
+		return
+	}
+	aclPath, aclMethod := map[string]string{}, map[string]string{}
+	type route struct{ backend, method, path string }
+	var routes []route
+	effects := map[string][]string{}
+	cur := ""
+	for _, line := range strings.Split(string(raw), "\n") {
+		f := strings.Fields(strings.TrimSpace(line))
+		if len(f) == 0 || strings.HasPrefix(f[0], "#") {
+			continue
+		}
+		switch {
+		case f[0] == "backend" && len(f) >= 2:
+			cur = f[1]
+		case f[0] == "frontend" || f[0] == "listen" || f[0] == "defaults" || f[0] == "global":
+			cur = ""
+		case f[0] == "acl" && len(f) >= 4 && f[2] == "path":
+			aclPath[f[1]] = f[3]
+		case f[0] == "acl" && len(f) >= 4 && f[2] == "method":
+			aclMethod[f[1]] = f[3]
+		case f[0] == "use_backend" && len(f) >= 4 && f[2] == "if":
+			rt := route{backend: f[1]}
+			for _, a := range f[3:] {
+				if m, ok := aclMethod[a]; ok {
+					rt.method = m
+				}
+				if p, ok := aclPath[a]; ok {
+					rt.path = p
+				}
+			}
+			routes = append(routes, rt)
+		case cur != "" && f[0] == "http-request" && len(f) >= 2:
+			effects[cur] = append(effects[cur], strings.Join(f[1:], " "))
+		}
+	}
+	backendOf := func(method, path string) string {
+		for _, rt := range routes {
+			if rt.method == method && rt.path == path {
+				return rt.backend
+			}
+		}
+		return ""
+	}
+	has := func(b, what string) bool {
+		for _, e := range effects[b] {
+			if strings.Contains(e, what) {
+				return true
+			}
+		}
+		return false
+	}
+	urlOf := func(v ssa.Value) string {
+		// the URL globals are initialised as "http://localhost:" + port + "/path"
+		g, ok := peel(v).(*ssa.UnOp)
+		if !ok {
+			return ""
+		}
+		gl, ok := g.X.(*ssa.Global)
+		if !ok {
+			return ""
+		}
+		path := ""
+		if init := w.SSAPkg[pkgConfig].Func("init"); init != nil {
+			Instrs(init, func(in ssa.Instruction) {
+				if st, ok := in.(*ssa.Store); ok && st.Addr == ssa.Value(gl) {
+					if b, ok := st.Val.(*ssa.BinOp); ok {
+						if s, isS := constString(b.Y); isS {
+							path = s
+						}
+					}
+				}
+			})
+		}
+		return path
+	}
+	intent := map[string]struct {
+		must, mustNot []string
+		why           string
+	}{
+		"manageAll":      {[]string{"set-var(proc.manage_all)"}, []string{"del-map(/etc/haproxy/maps/endpoints.map)"}, "switching manage-all on keeps the registered endpoints"},
+		"unmanageGlobal": {[]string{"unset-var(proc.manage_all)"}, []string{"del-map(/etc/haproxy/maps/endpoints.map)", "set-var(proc.skip_all)"}, "dropping the global flag keeps every endpoint expression that is still configured"},
+		"UnmanageAll":    {[]string{"unset-var(proc.manage_all)", "del-map(/etc/haproxy/maps/endpoints.map)"}, nil, "the fail-safe switch-off removes everything"},
+	}
+	for fn, want := range intent {
+		f := w.Fn(pkgConfig, fn)
+		if f == nil {
+			r.Undec("R5", "proxy-protocol/"+fn, token.NoPos, "function not found")
+			continue
+		}
+		calls := CallsIn(f, false, "config.applyAllRequest")
+		if len(calls) != 1 {
+			r.Undec("R5", "proxy-protocol/"+fn, f.Pos(), "expected one applyAllRequest call, found %d", len(calls))
+			continue
+		}
+		method, _ := constString(calls[0].Common().Args[0])
+		path := urlOf(calls[0].Common().Args[1])
+		b := backendOf(method, path)
+		ok := b != ""
+		var why []string
+		for _, m := range want.must {
+			if !has(b, m) {
+				ok = false
+				why = append(why, "backend lacks "+m)
+			}
+		}
+		for _, m := range want.mustNot {
+			if has(b, m) {
+				ok = false
+				why = append(why, "backend has "+m)
+			}
+		}
+		r.Check(ok, "R5", "proxy-protocol/"+fn, posOf(calls[0]), "%s sends %s %s -> haproxy backend %q: %s %v", fn, method, path, b, want.why, why)
+	}
 }
